@@ -2,6 +2,8 @@ package props
 
 import (
 	"fmt"
+	"os"
+	"path/filepath"
 	"sort"
 	"strings"
 
@@ -446,7 +448,16 @@ func traceSummary(w *world.World) string {
 
 // newLifeWorld creates the chain+world for a job and registers it with the watchdog.
 func newLifeWorld(ctx *check.JobCtx, mons ...world.Monitor) *world.World {
-	c := chain.New(chain.Options{})
+	opts := chain.Options{}
+	if recordDir != "" {
+		rq, err1 := os.Create(filepath.Join(recordDir, "req.log"))
+		rs, err2 := os.Create(filepath.Join(recordDir, "resp.log"))
+		if err1 != nil || err2 != nil {
+			panic("cannot record stream")
+		}
+		opts.ReqLog, opts.RespLog = rq, rs
+	}
+	c := chain.New(opts)
 	w := world.New(ctx.Job.Seed, c)
 	w.HashStates = true
 	w.AddMonitor(mons...)
